@@ -32,7 +32,7 @@ RULE = ('cases = T: expression-generator rules in text form over leaves of every
         'chosen so that every leaf kind varies. Non-trivial = the decision vector is not constant; distinct = distinct rule value. Stratum `first-use`: in a fresh interpreter per schedule, two threads parse, print and decide one rule each (http / https / role / attribute leaves) as the very first use of the library, the first pre-empted at a sampled line boundary (lazy set-up such as the scan for plugin check kinds happens inside these calls): both must print and decide as when run one after the other, and the printed text parsed again afterwards must print and decide the same.')
 ASSUMPTIONS = ['leaves contain no whitespace and, in list form, no leading ( or trailing ) - the tokenizer can never produce such a leaf from text',
                'a lone quoted string is not a rule of the language (C02 covers it)',
-               'http(s) checks answer through a stub of requests.post: URL path /yes -> True, anything else -> False']
+               'http(s) checks answer through a stub of requests.post whose answer depends on scheme and path: http://.../yes and https://.../sec -> True, anything else -> False']
 LEVEL_TEXT = ('Seeded sampling of rules over all leaf kinds; each is printed and re-parsed by the real code and both trees '
               'are executed in 24 worlds. Nothing in the suite re-parses printed output; the language is infinite, so sampling '
               'with all leaf kinds and shapes is the level.')
@@ -49,7 +49,7 @@ REQUIRED_ANCHORS = ['oslo_policy._parser:parse_rule']
 N = {'quick': 4000, 'thorough': 400000}
 
 LEAVES = ['role:a', 'role:b', 'role:compute:admin', 'rule:h1', 'rule:h2', 'rule:ghost', "'Member':%(role.name)s",
-          'True:%(user.enabled)s', 'project_id:%(project_id)s', 'http://h/yes', 'https://h:8/no?q=1', 'http://h/%(n)s',
+          'True:%(user.enabled)s', 'project_id:%(project_id)s', 'http://h/yes', 'https://h:8/no?q=1', 'http://h/%(n)s', 'https://h/sec', 'https://h/yes', 'http://h/sec', 'https://h/%(n)s',
           '@', '!', 'a.b.c:d', '1:1', '1:2', '"dq":%(x)s', 'x:y', 'user_id:%(user_id)s', 'None:%(nil)s', 'is_admin:True',
           'word', 'role:%(r)s', 'Role:a', 'ROLE:b', 'Rule:h1', 'RULE:ghost', 'Http://h/yes', 'Is_admin:True', 'True:true']
 HELPERS = {'h1': 'role:a', 'h2': 'role:b and not role:c'}
@@ -474,8 +474,11 @@ class _Reply:
 
 
 def fake_post(url, **kw):
-    """Light transport stub (the wire level is C16's subject): path /yes -> True."""
-    return _Reply('True' if url.split('?')[0].endswith('/yes') else 'False')
+    """Light transport stub (the wire level is C16's subject).  The answer depends on the path AND on the scheme, so that an
+    https: check which turns into an http: check (or the other way round) changes a decision: http://.../yes and
+    https://.../sec -> True, everything else -> False."""
+    scheme, path = url.split('://', 1)[0].lower(), url.split('?')[0]
+    return _Reply('True' if (scheme == 'http' and path.endswith('/yes')) or (scheme == 'https' and path.endswith('/sec')) else 'False')
 
 
 FIRST_USE = {'quick': 4, 'thorough': 40}        # sampled schedules per shard beside the systematic ones, each in a fresh interpreter
